@@ -57,7 +57,7 @@ def eval_dumps(ctx, dump_dir, nlines, behs, label):
     """TLC (RealmDump.tla) evaluates the statement's invariants on every dumped graph."""
     if nlines == 0:
         return 0
-    nchunk = 1 if nlines < 150 else min(6, max(2, nlines // 250))
+    nchunk = 1 if nlines < 150 else min(8, max(2, nlines // 250))
     bounds = [(i * nlines // nchunk + 1, (i + 1) * nlines // nchunk) for i in range(nchunk)]
 
     def job(lo, hi):
@@ -67,7 +67,7 @@ def eval_dumps(ctx, dump_dir, nlines, behs, label):
             with open(nfile, "w") as f:
                 f.write(json.dumps({"lo": lo, "hi": hi}) + "\n")
             files = [nfile] + [os.path.join(dump_dir, "realm_dump_%d.json" % i) for i in range(lo, hi + 1)]
-            r = vlib.run_tlc(ctx, "RealmDump", "RealmDump.cfg", workers=1, timeout=3000, extra_files=files,
+            r = vlib.run_tlc(ctx, "RealmDump", "RealmDump.cfg", workers=1, timeout=7000, extra_files=files,
                              tags=("DUMPFAIL",), deadlock=True, jvm=["-Xmx2g", "-XX:TieredStopAtLevel=1"])
             if r.error or not r.ok:
                 raise vlib.Inconclusive("TLC-ERROR", "RealmDump lines %d-%d: %s" % (lo, hi, (r.error or r.out)[-1500:]))
@@ -228,10 +228,10 @@ def run(ctx):
     # directed: the commit edges on which the recursive save meets an object already being saved
     start("loop", lambda: edges(ctx, "Realm_loop.cfg"))
     re_, rx, rs = par([lambda: edges(ctx, "Realm_qe.cfg"), lambda: edges(ctx, "Realm_xq.cfg"),
-                       lambda: simulate(ctx, 40 if quick else 600)])
+                       lambda: simulate(ctx, 40 if quick else 350)])
     ctx.cov["edges_emitted"] = len(re_.traces) + len(rx.traces)
     behs = []
-    for r, nq, nt in ((re_, 80, 3000), (rx, 40, 1000)):
+    for r, nq, nt in ((re_, 80, 1500), (rx, 40, 700)):
         eb = vlib.dedup_prefix(r.traces)
         eb.sort(key=lambda b: json.dumps(b, sort_keys=True))
         n = nq if quick else nt
